@@ -474,6 +474,7 @@ func genQUIC(r *lib.Rng, n int) func() {
 	p := newQUICPeer(addrA)
 	defer p.close()
 	genQUICSweeps(r, p)
+	genBodyLen(r, func() *hist { return newQUICHist(r, p) })
 	for i := 0; i < 4+n/40; i++ {
 		genBig(r, newQUICHist(r, p), i)
 	}
